@@ -68,6 +68,8 @@ def verdict(ptype, cfg, v):
 
     if ptype in ("Number", "Magnitude"):
         if callable(v):
+            if isinstance(v, type) or not hasattr(v, "__dict__"):
+                return None      # documented: "the callable object must allow attributes to be set on itself"
             return not inspect.isgeneratorfunction(v)      # Dynamic: a callable generates the values
         if not _is_num(v):
             return False
@@ -77,6 +79,8 @@ def verdict(ptype, cfg, v):
 
     if ptype == "Integer":
         if callable(v):
+            if isinstance(v, type) or not hasattr(v, "__dict__"):
+                return None
             return None if inspect.isgeneratorfunction(v) else True
         if not isinstance(v, int):        # bool is an int in Python; the docs say "an Integer"
             return False
